@@ -183,10 +183,17 @@ def generated(rng, n, depth):
     return out
 
 
-def start_scenario(scn):
-    """Scenario.start with the per-item failure hook of the map-fail scenarios"""
+_redis_n = [0]
+
+
+def start_scenario(scn, redis=False):
+    """Scenario.start with the per-item failure hook of the map-fail scenarios; `redis`: two engine instances, each with its
+    own client of one (fake) Redis server, instead of one instance over in-memory stores"""
     fp = scn.extra.get("fail_payload")
     if fp is None:
+        if redis:
+            _redis_n[0] += 1
+            return scn.start(instances=2, store_url="redis://engine-%d:6379" % _redis_n[0], share_stores=False)
         return scn.start()
     import sim as simmod
     s = simmod.Sim(instances=scn.instances)
@@ -284,6 +291,11 @@ class Monitor(object):
             return
         rec = s.record(ea)
         hist = s.history(ea) or []
+        if getattr(self, "two_views", False) and len(s.instances) > 1 and all(i.alive for i in s.instances[:2]):
+            rec1, hist1 = s.record(ea, 1), s.history(ea, 1) or []
+            if cj(rec1) != cj(rec) or cj(hist1) != cj(hist):
+                self.problems.append(("C11.any_instance_same_answers", {"step": self.step_no, "record_via_0": rec, "record_via_1": rec1,
+                                                                       "history_len_via_0": len(hist), "history_len_via_1": len(hist1)}))
         # ---- C02: record shape and frozen-after-terminal
         if rec is not None:
             st = rec.get("status")
@@ -402,13 +414,22 @@ def run_property(chk, prop, laws, quick_gen=300, thorough_gen=4000, scns=None, n
     for scn in scns:
         hand = not scn.name.startswith("gen")
         scheds = ["canonical"] + ["random"] * (n_rand if hand else 1)
+        if "C11" in laws and hand and scn.extra.get("fail_payload") is None and "TimeoutSeconds" not in scn.machine \
+                and not scn.name.startswith("oversize"):
+            # the same over a Redis-backed store shared by two engine instances (each its own client): the record and the
+            # history read through either instance are the same
+            scheds += ["redis-canonical", "redis-random"]
         if "TimeoutSeconds" in scn.machine:
             # the broker stalls: nothing is delivered for over a minute of virtual time, at a random moment or right
             # after the terminal notification, while timers and heartbeats (the once-a-minute back stop) keep firing
             scheds += ["stall"] * max(4, n_rand)
         for kind in scheds:
             mon = Monitor(scn)
-            s, ea, pl = start_scenario(scn)
+            redis = kind.startswith("redis")
+            s, ea, pl = start_scenario(scn, redis=redis)
+            mon.two_views = redis
+            if redis:
+                kind = kind[len("redis-"):]
             mon(s, ea, None)
             g = None
             stall_at = None if kind != "stall" else chk.rng.choice(["terminal", "terminal", chk.rng.randrange(0, 14)])
